@@ -7,6 +7,7 @@ from ..core import AnalysisError, call_name, dotted, kwarg, norm, walk_no_nested
 from ..guards import sites
 from ..registry import describe, rule
 from ..util import calls_named, returns_of
+from .. import tmatch as tm
 
 EI = "pgmpy/inference/ExactInference.py"
 DF = "pgmpy/factors/discrete/DiscreteFactor.py"
@@ -29,33 +30,40 @@ def _eval_assignment_loop(f):
          for i, card in enumerate(rev_card): assignments[:, i] = index % card ; index = index // card
          assignments = flip(assignments, axis 1)
        returns a function flat_index -> tuple of per-variable state numbers, or raises AnalysisError."""
-    d = {n.targets[0].id: n.value for n in walk_no_nested(f.node) if isinstance(n, ast.Assign) and isinstance(n.targets[0], ast.Name)}
-    rev = d.get("rev_card")
-    if rev is None or norm(rev) != "self.cardinality[::-1]":
-        order = "forward" if rev is not None and norm(rev) in ("self.cardinality", "self.cardinality[:]") else None
-        if order is None:
-            raise AnalysisError("DiscreteFactor.assignment: cannot read the cardinality order used for decoding")
-    else:
-        order = "reversed"
-    loops = [n for n in walk_no_nested(f.node) if isinstance(n, ast.For) and "enumerate(rev_card)" in norm(n.iter)]
+    idx = f.params[1]
+    loops = [n for n in walk_no_nested(f.node) if isinstance(n, ast.For) and tm.is_(n, "for _i, _c in enumerate(_RC):\n    __BODY") is not None or
+             (isinstance(n, ast.For) and isinstance(n.iter, ast.Call) and call_name(n.iter) == "enumerate" and isinstance(n.target, ast.Tuple) and len(n.target.elts) == 2)]
     if not loops:
         raise AnalysisError("DiscreteFactor.assignment: decoding loop not found")
-    body = loops[0].body
+    lp = loops[0]
+    ivar, cvar = dotted(lp.target.elts[0]), dotted(lp.target.elts[1])
+    rcname = dotted(lp.iter.args[0]) if lp.iter.args else None
+    if rcname is None:
+        raise AnalysisError("DiscreteFactor.assignment: cannot read the cardinality order used for decoding")
+    if tm.has(f.node, "_RC = self.cardinality[::-1]", {"_RC": rcname}):
+        order = "reversed"
+    elif tm.has(f.node, "_RC = self.cardinality", {"_RC": rcname}) or tm.has(f.node, "_RC = self.cardinality[:]", {"_RC": rcname}):
+        order = "forward"
+    else:
+        raise AnalysisError("DiscreteFactor.assignment: cannot read the cardinality order used for decoding")
     steps = []
-    for st in body:
-        if isinstance(st, ast.Assign) and isinstance(st.targets[0], ast.Subscript) and dotted(st.targets[0].value) == "assignments":
-            v = st.value
-            if not (isinstance(v, ast.BinOp) and isinstance(v.op, ast.Mod) and dotted(v.left) == "index" and dotted(v.right) == "card"):
-                raise AnalysisError("DiscreteFactor.assignment: digit extraction is not `index % card`")
+    out = None
+    for st in lp.body:
+        b1 = tm.is_(st, "_A[:, _i] = _idx % _c", {"_i": ivar, "_c": cvar, "_idx": idx})
+        if b1 is not None:
+            out = b1["_A"]
             steps.append("digit")
-        elif isinstance(st, ast.Assign) and dotted(st.targets[0]) == "index":
-            v = st.value
-            if not (isinstance(v, ast.BinOp) and isinstance(v.op, ast.FloorDiv) and dotted(v.left) == "index" and dotted(v.right) == "card"):
-                raise AnalysisError("DiscreteFactor.assignment: carry is not `index // card`")
+        elif tm.is_(st, "_idx = _idx // _c", {"_c": cvar, "_idx": idx}) is not None:
             steps.append("carry")
+        elif isinstance(st, ast.Assign) and isinstance(st.targets[0], ast.Subscript):
+            raise AnalysisError("DiscreteFactor.assignment: digit extraction is not `index % card`")
+        elif isinstance(st, ast.Assign) and dotted(st.targets[0]) == idx:
+            raise AnalysisError("DiscreteFactor.assignment: carry is not `index // card`")
         else:
             raise AnalysisError("DiscreteFactor.assignment: unexpected statement in the decoding loop")
-    flipped = any(call_name(c) == "flip" for c in ast.walk(f.node) if isinstance(c, ast.Call)) or "[:, ::-1]" in norm(f.node, 100000)
+    flipped = out is not None and (tm.has(f.node, "_A = compat_fns.flip(_A, axis=(1,))", {"_A": out}) or tm.has(f.node, "_A = _A[:, ::-1]", {"_A": out})
+                                   or tm.has(f.node, "_A = np.flip(_A, axis=1)", {"_A": out}) or tm.has(f.node, "_A = np.fliplr(_A)", {"_A": out}))
+    f._c03_out = out
 
     def decode(k, cards):
         cs = list(reversed(cards)) if order == "reversed" else list(cards)
@@ -95,24 +103,32 @@ def decode(rc):
     if bad:
         rc.fail(a, a.node, f"assignment() does not invert the row-major layout of the value table: flat index {bad[0]} is decoded as {bad[1]} but is cell {bad[2]} of a 2x3x4 table",
                 construct="assignment unravel")
-    t = norm(a.node, 100000)
-    if "self.get_state_names(key, int(val))" not in t or "zip(self.variables, values)" not in t:
+    okn = any(tm.is_(r.value, "[[(_k, self.get_state_names(_k, int(_v))) for _k, _v in zip(self.variables, _row)] for _row in _A]", {"_A": getattr(a, "_c03_out", None) or "assignments"}) is not None
+              for r in returns_of(a) if r.value is not None)
+    if not okn:
         rc.fail(a, a.node, "assignment() must pair the decoded digits with the factor's variables in axis order and translate them to state names", construct="assignment names")
     rc.ob("assignment pairs digits with self.variables and maps them to state names")
     for cname in ("VariableElimination", "BeliefPropagation"):
         f = repo.func(EI, f"{cname}.map_query")
-        d = {n.targets[0].id: n.value for n in walk_no_nested(f.node) if isinstance(n, ast.Assign) and isinstance(n.targets[0], ast.Name)}
-        am = d.get("argmax")
-        asg = d.get("assignment")
-        ok1 = am is not None and norm(am) == "compat_fns.argmax(final_distribution.values)"
-        ok2 = asg is not None and norm(asg) == "final_distribution.assignment([argmax])[0]"
-        rc.ob(f"{cname}.map_query: argmax = {norm(am) if am is not None else None}; assignment = {norm(asg) if asg is not None else None}")
-        if not (ok1 and ok2):
+        fd_calls = [n for n in walk_no_nested(f.node) if isinstance(n, ast.Assign) and isinstance(n.value, ast.Call) and call_name(n.value) in ("_variable_elimination", "_query")
+                    and isinstance(n.targets[0], ast.Name)]
+        if not fd_calls:
+            raise AnalysisError(f"{cname}.map_query: joint factor definition not found")
+        FD = fd_calls[-1].targets[0].id
+        _, b1 = tm.find(f.node, "_AM = compat_fns.argmax(_FD.values)", {"_FD": FD})
+        _, b2 = tm.find(f.node, "_AS = _FD.assignment([_AM])[0]", b1) if b1 is not None else (None, None)
+        rc.ob(f"{cname}.map_query: arg-max over `{FD}.values`, decoded by `{FD}.assignment`: {b2 is not None}")
+        if b2 is None:
             rc.fail(f, f.node, f"{cname}.map_query must take the arg-max over the joint factor's value table and decode it with that same factor", construct=f"{cname} argmax/decode")
+            continue
         # every pair of the assignment reaches the result
-        t = norm(f.node, 100000)
-        okr = "for var_assignment in assignment" in t and "var, value = var_assignment" in t and "map_query_results[var] = value" in t and \
-            any(dotted(r.value) == "map_query_results" for r in returns_of(f))
+        okr = False
+        for lp in [n for n in walk_no_nested(f.node) if isinstance(n, ast.For)]:
+            for t in ("for _p in _AS:\n    _k, _v = _p\n    _R[_k] = _v", "for _k, _v in _AS:\n    _R[_k] = _v"):
+                b3 = tm.is_(lp, t, {"_AS": b2["_AS"]})
+                if b3 is not None and any(dotted(r.value) == b3["_R"] for r in returns_of(f)):
+                    okr = True
+        okr = okr or any(tm.is_(r.value, "dict(_AS)", {"_AS": b2["_AS"]}) is not None or tm.is_(r.value, "{_k: _v for _k, _v in _AS}", {"_AS": b2["_AS"]}) is not None for r in returns_of(f) if r.value is not None)
         if not okr:
             rc.fail(f, f.node, f"{cname}.map_query must return every (variable, state name) pair of the decoded assignment", construct=f"{cname} result pairs")
     am = repo.func("pgmpy/utils/compat_fns.py", "argmax")
@@ -142,7 +158,8 @@ def scope(rc):
         rc.fail(f, c, "the evidence must condition the joint", construct="VE evidence")
     recv = dotted(c.func.value)
     d = {n.targets[0].id: n.value for n in walk_no_nested(f.node) if isinstance(n, ast.Assign) and isinstance(n.targets[0], ast.Name)}
-    if recv != "self" and norm(d.get(recv, ast.Constant(value=None))) != "VariableElimination(model_reduced)":
+    _, be = tm.find(f.node, "_VE = VariableElimination(_MR)", {"_VE": recv}) if recv != "self" else (None, {})
+    if recv != "self" and (be is None or not (tm.has(f.node, "_MR, evidence = self._prune_bayesian_model(variables, evidence)", be) or tm.has(f.node, "_MR = self.model", be))):
         rc.fail(f, c, "elimination must run on the (pruned) model of this query", construct="VE engine")
     b = repo.func(EI, "BeliefPropagation.map_query")
     qs = calls_named(b, "_query")
@@ -160,7 +177,7 @@ def scope(rc):
     if not okd:
         rc.fail(b, b.node, "without `variables` the MAP must be over all variables of the model", construct="BP default variables")
     # the default must be taken from the ORIGINAL model (before pruning / virtual evidence re-binds the engine)
-    lines = {k: n.lineno for n in walk_no_nested(b.node) if isinstance(n, ast.Assign) for k in [norm(n.targets[0])] if k in ("variables", "orig_model")}
+    lines = {k: n.lineno for n in walk_no_nested(b.node) if isinstance(n, ast.Assign) for k in [norm(n.targets[0])] if k in ("variables",)}
     reb = [n.lineno for n in walk_no_nested(b.node) if isinstance(n, ast.Call) and call_name(n) in ("_virtual_evidence", "_prune_bayesian_model")]
     dv = [n for n in walk_no_nested(b.node) if isinstance(n, ast.Assign) and norm(n.targets[0]) == "variables" and "self.model.nodes()" in norm(n.value)]
     if dv and reb and dv[0].lineno > min(reb):
@@ -171,14 +188,15 @@ def scope(rc):
         rc.fail(fv, fv.node, "without variables the joint over all variables is the product of all factors", construct="VE all variables")
     rc.ob("VE without variables: product of all factors")
     # the decode happens on the restored engine (BP) — order: restore, then decode
-    init = [n.lineno for n in walk_no_nested(b.node) if isinstance(n, ast.Call) and norm(n.func) == "self.__init__" and n.args and dotted(n.args[0]) == "orig_model"]
-    arg = [n.lineno for n in walk_no_nested(b.node) if isinstance(n, ast.Assign) and dotted(n.targets[0]) == "argmax"]
+    _, bo = tm.find(b.node, "_OM = self.model.copy()")
+    init = [n.lineno for n, _ in tm.find_all(b.node, "self.__init__(_OM)", bo)] if bo is not None else []
+    arg = [n.lineno for n, _ in tm.find_all(b.node, "_AM = compat_fns.argmax(_FD.values)")]
     if not init or not arg:
         raise AnalysisError("BP.map_query: restore / decode statements not found")
     # max_marginal: maximises the joint's table
     mm = repo.func(EI, "VariableElimination.max_marginal")
     cm = calls_named(mm, "_variable_elimination")
-    okm = cm and norm(kwarg(cm[0], "operation")) == "'maximize'" and any("compat_fns.max(final_distribution.values)" in norm(r.value) for r in returns_of(mm) if r.value is not None)
+    okm = cm and norm(kwarg(cm[0], "operation")) == "'maximize'" and any(tm.has(r.value, "compat_fns.max(_FD.values)", {"_FD": dotted(getattr(cm[0], "_parent", None).targets[0]) if isinstance(getattr(cm[0], "_parent", None), ast.Assign) else "?"}, nested=True) or tm.is_(r.value, "compat_fns.max(_FD.values)", {"_FD": dotted(getattr(cm[0], "_parent", None).targets[0]) if isinstance(getattr(cm[0], "_parent", None), ast.Assign) else "?"}) is not None for r in returns_of(mm) if r.value is not None)
     rc.ob(f"max_marginal: max-elimination and max of the remaining table: {bool(okm)}")
     if not okm:
         rc.fail(mm, mm.node, "max_marginal = max over the requested variables of the max-eliminated joint", construct="max_marginal")
